@@ -568,5 +568,25 @@ class ReachingDefs:
     def reaching(self, node: Node, name: str) -> List[Node]:
         return [self.cfg.nodes[i] for (nm, i) in sorted(self.IN[node.id]) if nm == name]
 
+    def origins(self, node: Node, name: str, _seen=None) -> List[Node]:
+        """Definitions of `name` reaching `node`, looking through plain copies (`a = b` contributes the origins of b there)."""
+        seen = _seen if _seen is not None else set()
+        out: Dict[int, Node] = {}
+        for d in self.reaching(node, name):
+            if d.id in seen:
+                continue
+            seen.add(d.id)
+            src = None
+            if d.kind == "stmt" and isinstance(d.ast, (ast.Assign, ast.AnnAssign)) and isinstance(d.ast.value, ast.Name):
+                t = d.ast.targets[0] if isinstance(d.ast, ast.Assign) and len(d.ast.targets) == 1 else getattr(d.ast, "target", None)
+                if isinstance(t, ast.Name) and t.id == name:
+                    src = d.ast.value.id
+            if src is None:
+                out[d.id] = d
+            else:
+                for o in self.origins(d, src, seen):
+                    out[o.id] = o
+        return [out[k] for k in sorted(out)]
+
     def reaching_at_exit(self, node: Node, name: str) -> List[Node]:
         return [self.cfg.nodes[i] for (nm, i) in sorted(self.OUT[node.id]) if nm == name]
